@@ -54,6 +54,27 @@ let s_obs = function
   | ObsFactory (cev, cerr, calls) ->
       String.concat " | " (("fac " ^ s_evs cev ^ " => " ^ (match cerr with None -> "ok" | Some e -> "err:" ^ s_err e)) :: List.map s_op calls)
 
+(* Identities are abstract: the harness numbers pointers by first appearance in the event
+   log, the model by allocation.  Renumber the model's by first appearance before printing. *)
+let canon_obs (ob : obs) : obs =
+  let tbl = Hashtbl.create 16 in
+  let id (n : nat) : nat =
+    let k = int_of_nat n in
+    match Hashtbl.find_opt tbl k with
+    | Some v -> v
+    | None -> let v = nat_of_int (Hashtbl.length tbl) in Hashtbl.add tbl k v; v in
+  let arg = function AConf c -> AConf { c with c_id = id c.c_id } | a -> a in
+  let ev = function
+    | EvFill (n, FTConf i, v) -> EvFill (n, FTConf (id i), v)
+    | EvCtor (n, a) -> EvCtor (n, arg a)
+    | e -> e in
+  let out = function OOk p -> OOk { p with p_arg = arg p.p_arg } | o -> o in
+  let op (evs, o) = let evs' = List.map ev evs in (evs', out o) in
+  match ob with
+  | ObsRegPanic -> ObsRegPanic
+  | ObsNew calls -> ObsNew (List.map op calls)
+  | ObsFactory (cev, e, calls) -> let cev' = List.map ev cev in ObsFactory (cev', e, List.map op calls)
+
 (* ---- parsing of an observation ---- *)
 let nat_s s = match int_of_string_opt s with Some i when i >= 0 -> nat_of_int i | _ -> raise (Unparsable ("number " ^ s))
 let p_v s = match String.split_on_char ',' s with
@@ -129,20 +150,39 @@ let predict_hook (f : string list) (obs : string) : string * string * bool =
       let cs = { cs_shape = sh; cs_req = (if req = "N" then ReqNew else ReqFactory true); cs_hf = true; cs_k = nat_of_int kk } in
       let nofill = List.filter (function EvFill _ -> false | _ -> true) in
       let strip = List.map (fun (e, out) -> (nofill e, out)) in
-      let pred = s_obs (match run_case cs o with
+      let pred = s_obs (canon_obs (match run_case cs o with
                         | ObsNew calls -> ObsNew (strip calls)
                         | ObsFactory (cev, e, calls) -> ObsFactory (nofill cev, e, strip calls)
-                        | x -> x) in
-      let expected_op j =
-        let nj = nat_of_int j in
-        let st = { s_alloc = nj; s_def = (if def = "-" then O else nj); s_fill = nj; s_ctor = nj; s_prod = O } in
-        let a = expected_arg sh true o st in
-        ((if def = "-" then [] else [EvDefault nj]) @ [EvCtor (nj, a)], OOk { p_ctor = nj; p_arg = a; p_prod = None }) in
-      let want = List.init kk expected_op in
+                        | x -> x)) in
+      (* specification: every call constructs exactly once, from a config that is the value of a
+         default invocation of THIS call (zero without a default function) overlaid by the decoded
+         setting b = userB; default invocations and config identities differ between calls *)
+      let has_def = (def <> "-") in
+      let op_ok (evs, out) =
+        match out with
+        | OOk p ->
+            let defs = List.filter_map (function EvDefault n -> Some n | _ -> None) evs in
+            let ctors = List.filter_map (function EvCtor (c, a) -> Some (c, a) | _ -> None) evs in
+            let base = (match defs with [n] when has_def -> Some (o.o_dflt n) | [] when not has_def -> Some vzero | _ -> None) in
+            (match base, ctors with
+             | Some b, [(c, a)] ->
+                 let want = { va = b.va; vb = n_of_string ub; vc = b.vc } in
+                 c = p.p_ctor && a = p.p_arg && p.p_prod = None &&
+                 (match a with AConf cf -> sh.sh_cfg = CPtr && cf.c_val = want | AVal v -> sh.sh_cfg = CStruct && v = want | _ -> false)
+             | _ -> false)
+        | _ -> false in
+      let distinct l = List.length (List.sort_uniq compare l) = List.length l in
+      let calls_ok calls =
+        List.length calls = kk && List.for_all op_ok calls &&
+        distinct (List.concat_map (fun (evs, _) -> List.filter_map (function EvDefault n -> Some (int_of_nat n) | _ -> None) evs) calls) &&
+        distinct (List.concat_map (fun (evs, _) -> List.filter_map (function EvCtor (_, AConf c) -> Some (int_of_nat c.c_id) | _ -> None) evs) calls) in
       let v =
         (match p_obs obs with
-         | ObsNew calls when req = "N" -> verdict (calls = want) "product not built from default overlaid by the decoded settings"
-         | ObsFactory ([], None, calls) when req <> "N" -> verdict (calls = want) "product not built from a fresh default overlaid by the decoded settings"
+         | ObsNew calls when req = "N" -> verdict (calls_ok calls) "product not built from a fresh default overlaid by the decoded settings"
+         | ObsFactory (cev, None, calls) when req <> "N" ->
+             (* creation may decode a trial config; it must not construct anything *)
+             verdict (List.for_all (function EvCtor _ | EvProd _ -> false | _ -> true) cev && calls_ok calls)
+               "product not built from a fresh default overlaid by the decoded settings"
          | _ -> "BAD:unexpected-form"
          | exception Unparsable what -> "BAD:outside-the-model(" ^ what ^ ")") in
       (pred, v, true)
@@ -151,7 +191,7 @@ let predict_hook (f : string list) (obs : string) : string * string * bool =
 let predict (c : string) (obs : string) : string * string * bool =
   if String.length c > 5 && String.sub c 0 5 = "hook " then predict_hook (split_blank c) obs else
   let (cs, o) = case_of (split_blank c) in
-  let pred = s_obs (run_case cs o) in
+  let pred = s_obs (canon_obs (run_case cs o)) in
   let v =
     match p_obs obs with
     | ob ->
